@@ -258,7 +258,9 @@ def _geom_xml(g, name):
     a.append('quat="%s"' % _fmt(g['quat']))
   if g.get('fromto') is not None:
     a.append('fromto="%s"' % _fmt(g['fromto']))
-  if not g.get('collide'):
+  if 'contype' in g:
+    a.append('contype="%d" conaffinity="%d"' % (g['contype'], g['conaffinity']))
+  elif not g.get('collide'):
     a.append('contype="0" conaffinity="0"')
   if g.get('density') is not None:
     a.append('density="%r"' % g['density'])
